@@ -11,6 +11,7 @@ correspondence run, as is `repr`/`eval` round-tripping of numeric literals (hypo
 import DeapModel.Lemmas.C12Str
 import DeapModel.Lemmas.C12Tok
 import DeapModel.Lemmas.C12Parse
+import DeapModel.Lemmas.C12Adf
 
 namespace C12
 open GpTree GpCompile
@@ -157,5 +158,33 @@ theorem adf_eval_two (main a1 a2 : CPset) (t0 t1 t2 : Tree) :
         [(a1.name, compile (withAdfs a1.env [(a2.name, compile (withAdfs a2.env []) a2.arguments t2)]) a1.arguments t1),
          (a2.name, compile (withAdfs a2.env []) a2.arguments t2)]) main.arguments t0) := by
   rw [adf_eval]; simp [semADF]
+
+/-! ## One individual's meaning does not depend on what else was compiled -/
+
+/-- the callable of the session model is the head of its `adfdict` -/
+theorem sessGo_func (items : List (PSig × Env × Tree)) :
+    (sessGo items).2.2 = ((sessGo items).1.head?).map (·.2) := by
+  cases items with
+  | nil => rfl
+  | cons x rest => obtain ⟨sg, c, t⟩ := x; simp [sessGo]
+
+/-- **What F20 fixed, at statement level.**  `sessGo` models a session in which every primitive set
+carries its current `context` and each `compileADF` call rebinds it (`pset.context = dict(pset.context,
+**adfdict)`).  Compile individual `A`, then individual `B` against the same sets:
+(i) the callable obtained for `A` is the pure meaning of `A`'s own trees in the sets' original contexts
+    (`compileADF`, i.e. `adf_eval`) — it is a value of the model and nothing `B` does can change it;
+(ii) the callable obtained for `B`, although compiled in the contexts left behind by `A`, is the pure
+    meaning of `B`'s own trees: every ADF name is bound again, so nothing of `A` leaks into `B`. -/
+theorem compile_adf_independent (sigs : List PSig) (cs : List Env) (A B : List Tree)
+    (h1 : sigs.length = cs.length) (h2 : cs.length = A.length) (h3 : A.length = B.length) :
+    (sessGo (mkItems sigs cs A)).2.2 =
+      compileADF ((mkItems sigs cs A).map (fun x => (⟨x.1.name, x.1.arguments, x.2.1⟩, x.2.2))) ∧
+    (sessGo (mkItems sigs (sessGo (mkItems sigs cs A)).2.1 B)).2.2 =
+      compileADF ((mkItems sigs cs B).map (fun x => (⟨x.1.name, x.1.arguments, x.2.1⟩, x.2.2))) := by
+  refine ⟨?_, ?_⟩
+  · rw [adf_eval, sessGo_func, sessGo_eq_sem]
+  · rw [(sessGo_independent sigs cs A B h1 h2 h3).2, adf_eval, sessGo_func, sessGo_eq_sem]
+
+example : ([⟨"MAIN".toList, ["x".toList]⟩, ⟨"ADF1".toList, []⟩] : List PSig).length = [exTree, exTree].length := by decide
 
 end C12
